@@ -100,9 +100,44 @@ def rule_merge_key_variant_blind(ctx, fx, config, prop="C03"):
     ctx.floor("TABLE.merge-key-variants", n, 2, config)
 
 
+def rule_expanded_entries_append_only(ctx, fx, config):
+    """ORDER:expanded-entries-append-only — the expanders hand their entries on in *precedence order* (own keys, then merged
+    sources, later-wins resolved by the consumer through the seen-set): a list of pending entries is only ever built by
+    appending.  Removing, overwriting in place, de-duplicating or sorting such a list applies a second precedence rule inside
+    one expanded source — and "later wins" there means the lowest-precedence value survives."""
+    fam = ["de::collect_entries_from_map", "de::pending_entries_from_events", "de::pending_entries_from_live_events"]
+    BAD = ("remove", "swap_remove", "retain", "retain_mut", "dedup", "dedup_by", "dedup_by_key", "truncate", "drain", "insert", "sort", "sort_by", "sort_by_key",
+           "sort_unstable_by", "sort_unstable_by_key", "index_mut", "swap", "split_off", "get_mut", "last_mut", "first_mut", "iter_mut")
+    n = 0
+    for name in fam:
+        fx.fn(name)  # anchors: the three expanders exist
+    # every function of the deserializer that handles such a list (a helper may be handed to `.map(..)` as a value)
+    scope = [f for f in sorted(fx.fns.values(), key=lambda g: g.npath) if f.file.endswith("src/de.rs") and f.kind != "closure"
+             and any("PendingEntry" in str(l.get("ty", "")) and "Vec<" in str(l.get("ty", "")) for l in f.locals)]
+    for f in scope:
+        ctx.saw(f)
+        bad = []
+        for g in [f] + [h for h in fx.closures_of(f)]:
+            for b, t in g.calls():
+                c = last_seg(fx.callee_decl(t))
+                if c not in BAD or not t["args"]:
+                    continue
+                tys = " ".join(str(a) for a in (t["f"].get("args") or [])) + " " + str(t["f"].get("self_ty") or "") + " " + str(t["f"].get("impl_self") or "")
+                a0 = t["args"][0]
+                pl = a0.get("mv") or a0.get("cp")
+                lty = g.local_ty(pl["l"]) if pl is not None and not pl["pr"] else ""
+                if ("PendingEntry" in tys or "PendingEntry" in lty) and "VecDeque" not in tys and "VecDeque" not in lty:
+                    bad.append("%s (line %s)" % (c, t.get("ln")))
+        n += 1
+        ctx.check(not bad, "ORDER", "C03:ORDER:expanded-entries-append-only:%s" % f.name, "lists of pending entries are built by appending only",
+                  "%s changes a list of pending entries in place — %s: the entries of an expanded merge source are in precedence order, and a second resolution inside the source lets a lower-precedence value replace a higher one" % (f.name, ", ".join(bad[:4])), config, ctx.where(f))
+    ctx.floor("ORDER.expander-lists", n, 3, config)
+
+
 def run(ctx):
     for config in ctx.configs:
         fx = ctx.facts(config)
+        rule_expanded_entries_append_only(ctx, fx, config)
         # ---- TABLE: merge-key predicate and its twin in the budget counter
         mk = fx.fn("de::is_merge_key")
         hs = fx.fn("budget::BudgetEnforcer::handle_scalar")
